@@ -7,7 +7,7 @@ package tables
 //verif:stub github.com/tucats/ego/internal/util.ErrorResponse = c15ErrorResponse
 //verif:stub github.com/tucats/ego/internal/i18n.Text = c15Text
 //verif:overlay internal/zzverif/c15/templates.go <- harness:C15/templates.go.txt
-//verif:bound one statement of the family in harness/C15/templates.go.txt (76 statements: a second table in every expression position of SELECT, INSERT, UPDATE and DELETE that the parser accepts, CTEs, set operations, derived tables, schema-qualified and quoted names, CREATE/DROP/ALTER of tables, views and indexes), parsed by the real parser, against every assignment of the caller's permissions: read/insert/update/delete on each of the two tables, the DSN-administrator permission and the DSN-administrator grant; SQLite dialect (quick), both dialects (thorough)
+//verif:bound one statement of the family in harness/C15/templates.go.txt (78 statements: a second table in every expression position of SELECT, INSERT, UPDATE and DELETE that the parser accepts, CTEs, set operations, derived tables, schema-qualified and quoted names, CREATE/DROP/ALTER of tables, views and indexes), parsed by the real parser, against every assignment of the caller's permissions: read/insert/update/delete on each of the two tables, the DSN-administrator permission and the DSN-administrator grant; SQLite dialect (quick), both dialects (thorough)
 //verif:assume the permission store holds one grant per table for the caller with arbitrary permission bits (and a full grant for the CTE name c) and returns exactly the rows matching the filter (natively: a real SQLite permission store); the DSN is restricted; the caller is not a server administrator
 //verif:outside statements outside the family; what the database does with the statement (views, triggers, foreign keys that touch further tables); PostgreSQL-only syntax; statement splitting in the @sql handler
 
